@@ -25,6 +25,12 @@ def gen_cases(tier, seed):
             c0 = dict(cases[(k * 7 + rep) % len(cases)])
             cases.append({"family": "hostile", "nseed": int(seed * 1000003 + 900000 + rep * 1000 + k), "cfg": c0["cfg"], "hkind": 0 if unary else 1,
                           "hpick": k if unary else k - len(hostile.UNARY)})
+    # ... and 47 more operators with their own options tables (reductions, gather, pad variants, pack / unpack, resize, pools and convolutions with every field set
+    # to a non-default value, ...)
+    for rep in range(1 if tier == "quick" else 6):
+        for k in range(hostile.zoo_size()):
+            c0 = dict(cases[(k * 5 + rep) % len(cases)])
+            cases.append({"family": "hostile", "nseed": int(seed * 1000003 + 970000 + rep * 1000 + k), "cfg": c0["cfg"], "hkind": "zoo", "hpick": k})
     # quantisation tables that are present but incomplete or odd (kinds 5 and 13 of the hostile generator): interface tensors and CPU operands must keep them verbatim
     for k in range(36 if tier == "quick" else 600):
         c0 = dict(cases[(k * 11) % len(cases)])
@@ -242,7 +248,11 @@ def check(c, viol, counters):
         sin = [None if i < 0 else ssg.tensors[i] for i in sop.inputs]
         oin = [None if i < 0 else osg.tensors[i] for i in oop.inputs]
         if [t and t.name for t in sin] != [t and t.name for t in oin]:
-            v("cpu-op-wiring-changed", "operator %s inputs %s -> %s" % (out_names, [t and t.name for t in sin], [t and t.name for t in oin]))
+            sn, on = [t and t.name for t in sin], [t and t.name for t in oin]
+            how = ""
+            if len(on) > len(sn) and on[: len(sn)] == sn and all(x is None for x in on[len(sn):]):
+                how = ":builtin%d:omitted-trailing-optional-operand-written-as-minus-one" % sop.builtin
+            v("cpu-op-wiring-changed" + how, "operator %s inputs %s -> %s" % (out_names, sn, on))
         else:
             for ts, to in zip(sin, oin):
                 if ts is None:
